@@ -459,6 +459,8 @@ class World:
                 rec["pulled"] += 1
                 if rec.get("cancel_seen"):
                     rec["advanced_after_cancel"] = True
+                for m in w.monitors:
+                    m()
                 w.at_site("iter")
                 yield it
             rec["exhausted"] = True
